@@ -33,8 +33,9 @@ META = dict(
           'tree parent). Then (1) closure marks in the whole text (occurrences inside sentence renderings subtracted) == number of closed '
           'branches; (2) for every branch (leaf.branch_id) the token sequence of list(branch) embeds IN ORDER into the lines of its '
           'root-to-leaf path (earliest-match embedding = existence of an embedding), and these lines carry exactly one closure mark if the '
-          'branch is closed, none if open - a branch that fails on its mapped path but fits another root-to-leaf path of the text is NOT reported '
-          '(sibling order is not part of the statement; counted text_branches_on_other_path, inconclusive); (3) where a structure line splits into exactly len(structure.nodes) segments at "; " / closure '
+          'branch is closed, none if open - a branch that fails on its mapped path but fits another root-to-leaf path of the text '
+          'is NOT reported (sibling order is not part of the statement; counted text_branches_on_other_path, inconclusive); '
+          '(3) where a structure line splits into exactly len(structure.nodes) segments at "; " / closure '
           'marks, the k-th segment must contain the tokens of the k-th node (otherwise (3) is not applied). If the layout is not recognised '
           'only the weaker form is decided: (1) plus every branch embeds into the whole text; such a case is otherwise inconclusive. '
           'non-trivial = distinct (logic, tableau source, writer configuration) whose tableau has >= 2 nodes.'),
@@ -58,8 +59,8 @@ META = dict(
                              'open_branches_without_mark': 120000,
                              'nodes_sentence': 450000, 'nodes_world': 350000, 'nodes_designation': 450000,
                              'nodes_access': 25000, 'nodes_closure': 55000, 'nodes_quit': 1000, 'nodes_ellipsis': 2500, 'logics': 57}},
-    budget=dict(quick=600, thorough=2700),
-    unit_timeout=dict(quick=400, thorough=1500),
+    budget=dict(quick=600, thorough=3600),
+    unit_timeout=dict(quick=400, thorough=2400),
 )
 
 NARGS = dict(quick=32, thorough=None)          # arguments per logic (None: all generated)
